@@ -33,13 +33,20 @@ type metaStore struct {
 	fs          afero.Fs
 	modTimeCalc modTimeCalc
 	modTimeRes  time.Duration
+
+	// objectFs and objectPath locate the object a metadata entry describes,
+	// so that its hash can be recomputed when the entry is missing or stale.
+	objectFs   afero.Fs
+	objectPath func(bucket, object string) string
 }
 
-func newMetaStore(fs afero.Fs, modTimeCalc modTimeCalc) *metaStore {
+func newMetaStore(fs afero.Fs, modTimeCalc modTimeCalc, objectFs afero.Fs, objectPath func(bucket, object string) string) *metaStore {
 	b := &metaStore{
 		fs:          fs,
 		modTimeCalc: modTimeCalc,
 		modTimeRes:  -1,
+		objectFs:    objectFs,
+		objectPath:  objectPath,
 	}
 	return b
 }
@@ -90,7 +97,7 @@ func (ms *metaStore) loadMeta(bucket string, object string, size int64, mtime ti
 	if len(meta.Hash) == 0 || meta.Size != size || modDiff < -modRes || modDiff > modRes {
 		meta.Size = size
 		meta.ModTime = mtime
-		meta.Hash, err = hashFile(ms.fs, fullPath)
+		meta.Hash, err = hashFile(ms.objectFs, ms.objectPath(bucket, object))
 		if err != nil {
 			return nil, err
 		}
